@@ -121,7 +121,11 @@ func c01Desc(cs c01Case) string {
 	return fmt.Sprintf("%s S=%s D=%s C=%d root %d frames window [%d,%d)+%d samples lens=%v fam=%d", cs.Kind, cs.S, cs.D, cs.C, cs.P, cs.X, cs.X+cs.L, cs.R, cs.Lens, cs.Fam)
 }
 
-func c01Run(cs c01Case) (fs []F) {
+func c01Run(cs c01Case) []F {
+	return core.Guard("layout", func() []F { return c01RunRaw(cs) })
+}
+
+func c01RunRaw(cs c01Case) (fs []F) {
 	fail := func(kind, format string, a ...any) {
 		fn := map[string]string{"write": "Write", "wstriped": "WriteStriped", "read": "Read", "rstriped": "ReadStriped"}[cs.Kind]
 		fs = append(fs, core.Failf(fn+"/"+kind, "%s: %s", c01Desc(cs), fmt.Sprintf(format, a...)))
@@ -403,7 +407,7 @@ func init() {
 					}
 				}
 			}
-			for _, C := range []int{8, 9, 17, 65, 70} { // many channels
+			for _, C := range []int{8, 9, 17, 65, 70, 256, 300} { // many channels
 				for _, P := range []int{2, 5} {
 					big = append(big, shape{C, P, 0, P, 0}, shape{C, P, 1, P - 1, 0}, shape{C, P, 0, P - 1, C - 1})
 				}
@@ -519,7 +523,7 @@ func init() {
 			})
 			c.Sample(c01Case{Kind: "wstriped", S: "int8", D: "float32", C: 3, P: 3, X: 1, L: 2, Lens: []int{-1, 3, 1}, Fam: 1})
 			c.Sample(c01Case{Kind: "read", S: "uint16", D: "int64", C: 2, P: 3, X: 1, L: 1, R: 1, Lens: []int{5}, Fam: 0})
-			c.Set("rule", fmt.Sprintf("all 169 slice/buffer element-type pairs x C in 1..%d x root of P<=%d frames x every frame-aligned window (X,L) x partly filled last frames (interleaved forms) x Write/Read with slice length nil,0..Len+2 and WriteStriped/ReadStriped with every combination of per-channel lengths from {nil,0..L+1} x two value families (distinct tokens; extremes of the integer range exactly representable in both types); after each call the whole parent storage, the shapes, the caller's slices and the return value are compared with the model, and what was written is read back with both readers; non-trivial = at least one sample is transferred; cases distinct by construction; in addition a sparse set of large shapes (roots of 9, 33, 130, 1025 frames, 1-3 channels, and 8, 9, 17, 65, 70 channels on short roots; 3 windows each, input lengths around the buffer length) for all 169 pairs, against size-threshold fast paths", maxC, maxP))
+			c.Set("rule", fmt.Sprintf("all 169 slice/buffer element-type pairs x C in 1..%d x root of P<=%d frames x every frame-aligned window (X,L) x partly filled last frames (interleaved forms) x Write/Read with slice length nil,0..Len+2 and WriteStriped/ReadStriped with every combination of per-channel lengths from {nil,0..L+1} x two value families (distinct tokens; extremes of the integer range exactly representable in both types); after each call the whole parent storage, the shapes, the caller's slices and the return value are compared with the model, and what was written is read back with both readers; non-trivial = at least one sample is transferred; cases distinct by construction; in addition a sparse set of large shapes (roots of 9, 33, 130, 1025 frames, 1-3 channels, and 8, 9, 17, 65, 70, 256, 300 channels on short roots; 3 windows each, input lengths around the buffer length) for all 169 pairs, against size-threshold fast paths", maxC, maxP))
 			c.Assume("values are integers exactly representable in both element types (the property's domain)", "windows are made with Slice and partly filled frames with AppendSample")
 		},
 		RunCase: func(c *core.Ctx, raw json.RawMessage) []F { return c01Run(decode[c01Case](raw)) },
